@@ -408,6 +408,7 @@ func init() {
 	lock := func(acquire bool) libHandler {
 		return func(fv *funcVerifier, st *State, call *ast.CallExpr, fn *types.Func) []smt.Term {
 			sel := ast.Unparen(call.Fun).(*ast.SelectorExpr)
+			fv.noteLock(st, sel.X, acquire, sel.Sel.Name == "Lock" || sel.Sel.Name == "Unlock", call)
 			fv.lockOp(st, sel.X, acquire, call)
 			return nil
 		}
